@@ -77,11 +77,36 @@ def check_sampler(ctx, v, tau, le, b, u, stream):
     return z
 
 
+def check_sampler_big(ctx, v, tau, n):
+    """one call with a production-size batch: event k of the batch must be the inverse transform of ITS u_k"""
+    from nuspacesim.utils.cdf import grid_cdf_sampler
+    rng = ctx.rng
+    _, rax = raw_cdf(v)
+    gE, gB, frac = rax["log_e_nu"], rax["beta_rad"], rax["e_tau_frac"]
+    le = rng.uniform(gE[0], gE[-1], n); b = rng.uniform(gB[0], gB[-1], n)
+    u = rng.uniform(1e-6, 1.0, n)
+    idx = np.sort(rng.choice(n, 400, replace=False))
+    idx[:3] = [0, n // 2, n - 1]
+    rows = oracle_rows(tau, le[idx], b[idx])
+    u[idx] = np.minimum(u[idx], rows[:, -1])
+    z = grid_cdf_sampler(tau.tau_cdf_grid)(le, b, u)
+    ctx.count("sampler_big_batch_events", n)
+    for j, i in enumerate(idx):
+        Fz = F_of(rows[j], frac, z[i])
+        ctx.case(("big", v, n, int(i)), None)
+        if not np.isfinite(z[i]) or abs(Fz - u[i]) > 1e-9:
+            ctx.violation("grid_cdf_sampler", "F(z)!=u:large-batch", f"event {int(i)} of a {n}-event call: F(z)-u = {Fz - u[i]:.3e}",
+                          {"version": v, "n": n, "index": int(i), "log_e_nu": float(le[i]), "beta": float(b[i]), "u": float(u[i]), "z": float(z[i])})
+            break
+
+
 def run(ctx: Ctx):
     from nuspacesim.utils.cdf import grid_cdf_sampler
     rng = ctx.rng
     taus = {v: make_taus(v) for v in VERSIONS}
     check_translator(ctx, taus)
+    for n_big in ([int(rng.integers(65537, 90000))] if not ctx.thorough else [65537, 131073, 250001]):
+        check_sampler_big(ctx, "3", taus["3"], n_big)
     n = 20000 if ctx.thorough else 1500
     one = np.float64(1.0)
     for v, tau in taus.items():
